@@ -70,7 +70,7 @@ EXC_PARENT = {
     'OSError': 'Exception', 'SystemError': 'Exception', 'ImportError': 'Exception', 'RuntimeError': 'Exception',
     'Full': 'Exception', 'Empty': 'Exception', 'ReferenceError': 'Exception', 'ZeroDivisionError': 'Exception',
     'UserError': 'Exception', 'StructError': 'Exception', 'ZlibError': 'Exception', 'UnpicklingError': 'Exception',
-    'TransportNotReadyError': 'Exception', 'OverflowError': 'Exception',
+    'TransportNotReadyError': 'Exception', 'OverflowError': 'Exception', 'ArbitraryError': 'Exception', 'ArbitraryUnpickleError': 'Exception',
 }
 
 
